@@ -7,6 +7,7 @@ after net/ipv4/tcp_ipv4.c (tcp4_seq_show), net/ipv6/tcp_ipv6.c, net/ipv4/udp.c,
 net/ipv6/datagram.c and net/unix/af_unix.c (unix_seq_show).
 """
 import enum
+import errno
 import json
 import os
 import socket
@@ -136,7 +137,7 @@ def inode_of(s, ino):
 
 def build_world(w, inp, inodes=None, order=None, omit_v6=False, extra_pids=()):
     """Render the abstract tables of *inp* into the simulated kernel."""
-    from harness.simkernel import Fd
+    from harness.simkernel import Fd, oserr
     socks = inp["socks"]
     if inodes is None:
         inodes = [101 + k for k in range(len(socks))]
@@ -158,6 +159,19 @@ def build_world(w, inp, inodes=None, order=None, omit_v6=False, extra_pids=()):
         w.procs[pid].fds[fd] = Fd("socket:[%d]" % inodes[k - 1], kind="socket")
     for pid in pids:   # the kernel lists descriptors in ascending order
         w.procs[pid].fds = dict(sorted(w.procs[pid].fds.items()))
+    # every other holder closes its pipe (descriptor 1) between the listing of its descriptors and
+    # the look at that one: the name is listed, readlink() answers ENOENT -- its sockets stay where they are
+    closing = {"/proc/%d/fd/1" % pid for pid in pids if pid % 2}
+    if not hasattr(w, "_c11_readlink"):
+        w._c11_readlink = w.sys_readlink
+
+        def sys_readlink(path, _w=w):
+            if path in _w._c11_closing:
+                _w._access("readlink", path)
+                raise oserr(errno.ENOENT, path)
+            return _w._c11_readlink(path)
+        w.sys_readlink = sys_readlink
+    w._c11_closing = closing
     w.procs = dict(sorted(w.procs.items()))
     tabs = render_tables(socks, inodes, order)
     has6 = any(s["fam"] == "inet6" for s in socks)
